@@ -37,3 +37,45 @@ PROPS["C17"] = {
          "quick": grid("jac_simple", [(0,3),(3,3),(2,4)]), "thorough": grid("jac_simple", [(4,4),(5,5),(6,6)])},
     ],
 }
+
+DL_UNWINDSET = [(r"DistMatrix::init", 24), (r"Vec::<f64>::extend_with", 70)]
+
+PROPS["C16"] = {
+    "assumptions": ["words are built directly as WordView values (the tokeniser is not executed, DESIGN F5)"],
+    "outside": "words longer than 4 characters (5x2 in the thorough tier); matrices grown beyond 7x7; "
+               "'several times the capacity' is only covered through the arbitrary-pre-state lemma DL-hist",
+    "lemmas": [
+        {"id": "DL-laws", "text": "on a fresh DamerauLevenshtein of the given capacity: distance == 0 iff the words are equal; "
+                                  "distance >= 0 and 2*distance is an integer; distance <= plain Levenshtein; "
+                                  "2*distance >= unrestricted Damerau-Levenshtein (both references computed in the harness on the "
+                                  "same symbolic words)",
+         "bounds": "(n1,n2,capacity) from the instance names; every char any Unicode scalar, every class any of the 8 classes; unwind 8 "
+                   "(init loop 24, resize 70)",
+         "opts": {"unwind": 8, "timeout": 1500, "unwindset": DL_UNWINDSET},
+         "quick": ["dl_laws_0_0_20", "dl_laws_0_2_20", "dl_laws_1_1_20", "dl_laws_1_2_20", "dl_laws_2_1_20", "dl_laws_2_2_2",
+                   "dl_laws_2_3_3", "dl_laws_3_2_3", "dl_laws_3_1_1", "dl_laws_3_3_3"],
+         "thorough": ["dl_laws_2_2_20", "dl_laws_3_3_20", "dl_laws_3_4_4", "dl_laws_4_3_4", "dl_laws_4_4_4", "dl_laws_2_5_5",
+                      "dl_laws_5_2_5", "dl_laws_2_4_1"]},
+        {"id": "DL-sym", "text": "distance(a,b) == distance(b,a), second call on the same instance",
+         "bounds": "(n1,n2,capacity) as listed", "opts": {"unwind": 8, "timeout": 1500, "unwindset": DL_UNWINDSET},
+         "quick": ["dl_sym_1_2_2", "dl_sym_2_2_2", "dl_sym_2_3_3", "dl_sym_2_3_1"], "thorough": ["dl_sym_3_3_3", "dl_sym_3_4_4"]},
+        {"id": "DL-discount", "text": "distance with arbitrary character classes <= distance of the same characters with all classes Consonant",
+         "bounds": "(n1,n2,capacity) as listed", "opts": {"unwind": 8, "timeout": 1500, "unwindset": DL_UNWINDSET},
+         "quick": ["dl_disc_2_2_2", "dl_disc_2_3_3"], "thorough": ["dl_disc_3_3_3", "dl_disc_3_4_4"]},
+        {"id": "DL-hist", "text": "history independence: starting from ANY matrix of dimension S satisfying the representation invariant "
+                                  "(sentinel row/column = S, origin 0, every other cell an arbitrary float) the result equals that of a "
+                                  "fresh instance; S smaller than needed exercises growth",
+         "bounds": "(n1,n2,S) as listed", "opts": {"unwind": 8, "timeout": 1500, "unwindset": DL_UNWINDSET},
+         "quick": ["dl_hist_2_2_2", "dl_hist_2_2_4", "dl_hist_2_2_6", "dl_hist_3_2_3", "dl_hist_1_3_4"],
+         "thorough": ["dl_hist_2_3_5", "dl_hist_3_3_2", "dl_hist_3_3_5", "dl_hist_3_3_7", "dl_hist_4_3_3"]},
+        {"id": "DL-inv", "text": "the representation invariant assumed by DL-hist is re-established by every call (and the matrix is "
+                                 "at least (n+2)x(n+2) with a flat buffer of size^2)",
+         "bounds": "(n1,n2,S) as listed", "opts": {"unwind": 8, "timeout": 1500, "unwindset": DL_UNWINDSET},
+         "quick": ["dl_inv_2_2_2", "dl_inv_0_2_3", "dl_inv_2_3_5"], "thorough": ["dl_inv_3_1_6", "dl_inv_3_3_4"]},
+        {"id": "DL-prefix", "text": "after distance(a,b) the matrix cell for the prefix pair (i,j) equals distance(a[..i], b[..j]) computed "
+                                    "on its own (what the word matcher reads)",
+         "bounds": "(n1,n2,i,j) as listed", "opts": {"unwind": 8, "timeout": 1500, "unwindset": DL_UNWINDSET},
+         "quick": ["dl_prefix_2_2_1_1", "dl_prefix_2_2_1_2", "dl_prefix_3_2_2_1"],
+         "thorough": ["dl_prefix_3_3_2_2", "dl_prefix_3_3_2_3", "dl_prefix_3_3_3_2", "dl_prefix_3_3_1_3", "dl_prefix_4_3_3_3", "dl_prefix_3_4_2_4"]},
+    ],
+}
